@@ -267,9 +267,35 @@ def c10():
     ]
 
 
+def c11():
+    return [
+        R("c11-add-rmv-private", "C11", LINOP, "        return self.a.rmv(x) + self.mul * self.b.rmv(x)", "        return self.a._rmv(x) + self.mul * self.b._rmv(x)", "C11-F"),
+        R("c11-matmul-rmv-private", "C11", LINOP, "        return self.b.rmv(self.a.rmv(x))", "        return self.b._rmv(self.a._rmv(x))", "C11-F"),
+        R("c11-adjoint-unguarded", "C11", LINOP, "        if not self.obj.is_rmv_implemented:\n            raise RuntimeError(\"The ._rmv of must be implemented to call .H.mv()\")\n        return self.obj._rmv(x)", "        return self.obj._rmv(x)", "C11-F"),
+        R("c11-base-mm-unguarded", "C11", LINOP, "        if self._is_mm_implemented:\n            return self._mm(x)\n        else:", "        if self._is_mm_implemented or len(xbatchshape) > 0:\n            return self._mm(x)\n        else:", "C11-F"),
+        R("c11-rmm-wrong-flag", "C11", LINOP, "            rmv = self._rmv if self._is_rmv_implemented else self.rmv", "            rmv = self._rmv if self._is_mv_implemented else self.rmv", "C11-F"),
+        R("c11-matmul-no-shape-check", "C11", LINOP, "        if self.shape[-1] != b.shape[-2]:\n            raise RuntimeError(\"Mismatch shape of matmul operation: %s and %s\" % (self.shape, b.shape))\n", "", "C11-V"),
+        R("c11-add-check-after", "C11", LINOP,
+          "        if self.shape[-2:] != b.shape[-2:]:\n            raise RuntimeError(\"Mismatch shape of add operation: %s and %s\" % (self.shape, b.shape))\n        if isinstance(self, MatrixLinearOperator) and isinstance(b, MatrixLinearOperator):\n            return LinearOperator.m(self.fullmatrix() + b.fullmatrix())",
+          "        if isinstance(self, MatrixLinearOperator) and isinstance(b, MatrixLinearOperator):\n            return LinearOperator.m(self.fullmatrix() + b.fullmatrix())\n        if self.shape[-2:] != b.shape[-2:]:\n            raise RuntimeError(\"Mismatch shape of add operation: %s and %s\" % (self.shape, b.shape))", "C11-V"),
+        R("c11-rmv-wrong-dim", "C11", LINOP, "        if x.shape[-1] != self.shape[-2]:\n            raise RuntimeError(\"Cannot operate .rmv", "        if x.shape[-1] != self.shape[-1]:\n            raise RuntimeError(\"Cannot operate .rmv", "C11-V"),
+        R("c11-hermitian-nonsquare-accepted", "C11", LINOP, "        if is_hermitian and shape[-1] != shape[-2]:\n            raise RuntimeError(\"The object is indicated as Hermitian, but the shape is not square\")\n", "", "C11-V"),
+        R("c11-mul-accepts-anything", "C11", LINOP, "        if not (isinstance(f, int) or isinstance(f, float)):\n            raise TypeError(\"LinearOperator multiplication only supports integer or floating point\")\n", "", "C11-V"),
+        R("c11-H-no-conj", "C11", LINOP, "            return LinearOperator.m(self.fullmatrix().transpose(-2, -1).conj())", "            return LinearOperator.m(self.fullmatrix().transpose(-2, -1))", "C11-H"),
+        R("c11-rmm-no-conj", "C11", LINOP, "        return torch.matmul(self.mat.transpose(-2, -1).conj(), x)", "        return torch.matmul(self.mat.transpose(-2, -1), x)", "C11-H"),
+        R("c11-add-drops-b-params", "C11", LINOP,
+          "class AddLinearOperator(LinearOperator):", "class AddLinearOperator(LinearOperator):  # mutated", None, expect="silent", note="negative control: a comment-only change must stay silent"),
+        R("c11-add-paramnames-missing-b", "C11", LINOP,
+          "        self.mul = mul\n\n    def __repr__(self):\n        return \"AddLinearOperator with shape %s of:\\n * %s\\n * %s\" % \\\n            (_shape2str(self.shape),\n             _indent(self.a.__repr__(), 3),\n             _indent(self.b.__repr__(), 3))\n\n    def _mv(self, x: torch.Tensor) -> torch.Tensor:\n        return self.a._mv(x) + self.mul * self.b._mv(x)\n\n    def _rmv(self, x: torch.Tensor) -> torch.Tensor:\n        return self.a.rmv(x) + self.mul * self.b.rmv(x)\n\n    def _getparamnames(self, prefix: str = \"\") -> List[str]:\n        return self.a._getparamnames(prefix=prefix + \"a.\") + \\\n            self.b._getparamnames(prefix=prefix + \"b.\")",
+          "        self.mul = mul\n\n    def __repr__(self):\n        return \"AddLinearOperator with shape %s of:\\n * %s\\n * %s\" % \\\n            (_shape2str(self.shape),\n             _indent(self.a.__repr__(), 3),\n             _indent(self.b.__repr__(), 3))\n\n    def _mv(self, x: torch.Tensor) -> torch.Tensor:\n        return self.a._mv(x) + self.mul * self.b._mv(x)\n\n    def _rmv(self, x: torch.Tensor) -> torch.Tensor:\n        return self.a.rmv(x) + self.mul * self.b.rmv(x)\n\n    def _getparamnames(self, prefix: str = \"\") -> List[str]:\n        return self.a._getparamnames(prefix=prefix + \"a.\")", "C11-P"),
+        R("c11-adjoint-prefix", "C11", LINOP, "        return self.obj._getparamnames(prefix=prefix + \"obj.\")", "        return self.obj._getparamnames(prefix=prefix)", "C11-P"),
+        R("c11-flag-via-getattr", "C11", LINOP, "        if not cls.__dict__.get(\"_implementation_checked\", False):", "        if not getattr(cls, \"_implementation_checked\"):", "C11-C"),
+    ]
+
+
 def all_mutants():
     ms = []
-    for f in (defects_back, c01, c02, c03, c04, c08, c13, c16, c10):
+    for f in (defects_back, c01, c02, c03, c04, c08, c13, c16, c10, c11):
         ms += f()
     import importlib
     try:
